@@ -264,6 +264,7 @@ class MsgWorld:
         self.pending = None  # step whose effects are being collected
         self.ident_of = {}
         self.peeked = []
+        self.skipped = []
         self.describe(desc)
 
     # -- gamma
@@ -353,11 +354,24 @@ class MsgWorld:
             if act == 'register':
                 self.do_registers(self.group(st))
                 continue
+            if st.get('maybe') and not self.enabled(act, st):
+                self.skipped.append(st)
+                continue
             self.do(act, st)
             self.obs.append(self.observe())
         self.finished = True
         self.client._shutdown.set()
         raise self.fc.ConnectionClosed()
+
+    def enabled(self, act, st):
+        """random steps marked 'maybe' are only legal in some states (unregister of a callback that is gone,
+        a second request with an equal key): decided on the real client's state when the step is due"""
+        if act == 'unregister':
+            cb = st['cb']
+            return [list(cb['level']), cb['kind'], cb['beh']] in self.a_cbs()
+        if act == 'expect':
+            return (st['rk'][0], g_ident(st['rk'][1])) not in self.client.active_requests
+        return True
 
     def pull(self):
         if self.peeked:
@@ -571,11 +585,11 @@ def _random_trace(seed_n):
         else:
             desc = _rand_desc(rnd)
             steps.append({'ev': 'descr', 'desc': [list(k) for k in desc]})
-    # steps marked 'maybe' are only legal in some states: decided while running
-    w2 = _Filter(w)
-    obs = w.run(w2.filtered(steps))
-    trace = [{'ev': 'descr', 'desc': [list(k) for k in w2.first_desc], 'cache': []}]
-    for st, o in zip(w2.done, obs):
+    first_desc = w.desc
+    obs = w.run(steps)
+    done = [st for st in steps if not any(st is x for x in w.skipped)]
+    trace = [{'ev': 'descr', 'desc': [list(k) for k in first_desc], 'cache': []}]
+    for st, o in zip(done, obs):
         ev = {k: v for k, v in st.items() if k not in ('maybe', 'single')}
         ev['cache'] = [{'m': c[0], 'p': c[1], 'e': _rec(c[2:])} for c in o['cache']]
         ev['cbs'] = [{'level': c[0], 'kind': c[1], 'beh': c[2]} for c in o['cbs']]
@@ -597,29 +611,6 @@ def _random_trace(seed_n):
 
 def _rec(e):
     return {'val': e[0], 'ts': e[1], 'err': {'cls': e[2], 'text': e[3]}}
-
-
-class _Filter:
-    """drops random steps that are not enabled in the state reached (unregister of a callback that
-    is gone, a second request with an equal key) - decided on the real client's state"""
-
-    def __init__(self, world):
-        self.w = world
-        self.done = []
-        self.first_desc = world.desc
-
-    def filtered(self, steps):
-        for st in steps:
-            if st['ev'] == 'unregister':
-                reg = {json.dumps(c) for c in self.w.a_cbs()}
-                cb = st['cb']
-                if json.dumps([list(cb['level']), cb['kind'], cb['beh']]) not in reg:
-                    continue
-            if st['ev'] == 'expect':
-                if (st['rk'][0], g_ident(st['rk'][1])) in self.w.client.active_requests:
-                    continue
-            self.done.append(st)
-            yield st
 
 
 # ------------------------------------------------------------------ end to end (real nodes, real TCP)
